@@ -225,11 +225,17 @@ def run_label_width(chk, F):
            key='E4|toplex|label-width' if bad is None else 'E4|%s::%s|label-width' % (bad[0]['clsname'], bad[0]['name']))
 
 
+# t0.erase(d) at the end of contraction: every simplex of d went through erase_max, which drops the key (and the queue
+# entry) with the last one - the call finds nothing to erase
+KEY_ERASE_NOOP = ('contraction',)
+
+
 def run_handle_lockstep(chk, F):
     """E2-handle-lockstep: cp_handles[v] is the handle of v's node in cleaning_priority: the two containers change
     together. On every path of every function of Lazy_toplex_map, each push into the queue is followed by the
     registration of its handle, and a clear / erase of one container comes with the same operation on the other
-    (a handle that outlives its node is used by the next update)."""
+    (a handle that outlives its node is used by the next update); the key of a vertex is erased from t0 together with
+    its queue entry (a vertex that left the complex must not be picked for cleaning: clean() looks it up in t0)."""
     fns = [f for f in F.functions if f.get('clsname') == 'Lazy_toplex_map' and f['inst'] in (0, 2) and
            f.get('body') is not None]
     n = 0
@@ -246,16 +252,25 @@ def run_handle_lockstep(chk, F):
                     return ['H+']
                 if r == 'cp_handles' and nm in ('clear', 'erase'):
                     return ['H-' + ('all' if nm == 'clear' else '1')]
+                if r == 't0' and nm in ('erase', 'clear'):
+                    return ['T-' + ('all' if nm == 'clear' else '1')]
             return []
         if not ir.contains(f['body'], lambda y: bool(cl(y))) or (f.get('kind') or '').endswith('ctor'):
             continue    # (the copy constructor rebuilds the handles for a queue copied by its initialiser: rule E1d)
         n += 1
-        ps = paths.enumerate_paths(f, cl, loop_mode='1', keep_conds=False, cap=20000)
+        ps = paths.enumerate_paths(f, cl, loop_mode='1', keep_conds=True, cap=20000)
         bad = None
         for p in ps:
             t = p.tags()
-            c = {k_: t.count(k_) for k_ in ('Q+', 'H+', 'Q-all', 'H-all', 'Q-1', 'H-1')}
+            c = {k_: t.count(k_) for k_ in ('Q+', 'H+', 'Q-all', 'H-all', 'Q-1', 'H-1', 'T-1', 'T-all')}
+            # the path has found that the vertex has no queue entry (find() == end()): nothing to take out
+            no_entry = any(not isinstance(cc, tuple) and 'cp_handles.end()' in ir.show(cc) and
+                           (('!=' in ir.show(cc)) != pol) for cc, pol, _ in p.conds)
             if (c['Q+'] != c['H+'] or c['Q-all'] != c['H-all'] or c['Q-1'] != c['H-1']) and bad is None:
+                bad = c
+            # a vertex whose key leaves t0 leaves the queue too (clean() looks the top of the queue up in t0)
+            if f['name'] not in KEY_ERASE_NOOP and not no_entry and \
+                    (c['T-1'] != c['Q-1'] or c['T-all'] != c['Q-all']) and bad is None:
                 bad = c
         chk.ob('E2-handle-lockstep', 'Lazy_toplex_map::%s changes cleaning_priority and cp_handles together on every '
                'path (%d paths)' % (f['name'], len(ps)), '%s:%d' % (rel(f['file']), f['line']), bad is None,
@@ -311,6 +326,38 @@ def run_handle_copy(chk, F):
                        % a['n'], '%s:%d' % (rel(f['file']), f['line']), bad is None,
                        '' if bad is None else '`%s` is %s' % (a['n'], bad),
                        key='E1d|Lazy_toplex_map|%s|copy_ctor' % a['n'])
+
+
+def run_label_sentinel(chk, F):
+    """E4-label-sentinel: "over any vertex labels": VERTEX_UPPER_BOUND = max(size_t) is the value best_index starts
+    from and the key under which the empty simplex is filed - it is also a legal vertex label, so no decision may
+    read it as "there is no vertex": a vertex is never compared with VERTEX_UPPER_BOUND (an empty query is recognised
+    on the range itself)."""
+    uses = 0
+    bad = []
+    for f in F.functions:
+        if f.get('inst') not in (0, 2) or f.get('body') is None or 'oplex_map' not in f['file']:
+            continue
+        for x in ir.walk(f['body']):
+            if x.get('n') == 'VERTEX_UPPER_BOUND' and x.get('k') in ir.MEMBER_KINDS + ('DeclRefExpr',):
+                uses += 1
+            if x.get('k') in ('BinaryOperator', 'CXXOperatorCallExpr') and x.get('op') in ('==', '!=', '<', '>', '<=',
+                                                                                        '>='):
+                ab = x['c'] if x['k'] == 'BinaryOperator' else ir.call_args(x)
+                if any((ir.skipcasts(y) or {}).get('n') == 'VERTEX_UPPER_BOUND' for y in ab):
+                    bad.append((f, x))
+    if uses < 2:
+        raise AnalysisBroken('C16: VERTEX_UPPER_BOUND is no longer used in the toplex maps (%d uses)' % uses)
+    chk.count('uses of VERTEX_UPPER_BOUND', uses)
+    if not bad:
+        chk.ob('E4-label-sentinel', 'no decision compares a vertex with VERTEX_UPPER_BOUND (%d uses of the constant, '
+               'none in a comparison)' % uses, 'src/Toplex_map/include/gudhi/Toplex_map.h', True, '',
+               key='E4|label-sentinel')
+    for f, x in bad:
+        chk.ob('E4-label-sentinel', '%s::%s does not read VERTEX_UPPER_BOUND as "no vertex"' % (
+            f.get('clsname') or '-', f['name']), '%s:%s' % (rel(f['file']), x.get('l')), False,
+            '`%s`: max(size_t) is a legal vertex label; a simplex whose least loaded vertex carries it is treated as the '
+            'empty query' % ir.show(x)[:70], key='E4|%s::%s|label-sentinel' % (f.get('clsname') or '-', f['name']))
 
 
 def run(tier, replay=None):
@@ -371,6 +418,7 @@ def run(tier, replay=None):
     run_remove_all_cofaces(chk, F)
     run_insert_shortcut(chk, F)
     run_label_width(chk, F)
+    run_label_sentinel(chk, F)
     run_handle_lockstep(chk, F)
     run_handle_copy(chk, F)
     chk.count('erase-and-reinsert loops', n_loops)
